@@ -99,7 +99,7 @@ def specs(rng, tier, wid, nw, env):
             for base in (10, 3, 16, 62, 36):
                 k += 1
                 if k % nw == wid: yield ('digits', base, nd, rng.choice(['rand', 'max']), rng.getrandbits(48))
-    N = 4000 if q else 150000
+    N = 25000 if q else 400000
     for i in range(N):
         c = rng.random()
         if c < 0.75: yield ('parse', rng.choice([0, 0, 0, 2, 8, 10, 16, 36, 37, 62, rng.randint(2, 62)]), rng.getrandbits(48))
